@@ -136,6 +136,15 @@ func (m middlewareImpl) checkConnectionAuthorization(context echo.Context, next 
 	for _, authorizedKey := range m.authorizedKeys {
 		log.Logger().Tracef("Checking key %v", authorizedKey.keyID)
 
+		// The JWT library infers the algorithms from the type of the key only (e.g. any of ES256, ES384 and ES512 for an
+		// EC key of any curve): make sure the algorithm of the credential fits this key (curve).
+		if key, ok := authorizedKey.jwkSet.Key(0); ok {
+			if err := jwx.ValidateAlgorithmForKey(credentialAlgorithm(credential), key); err != nil {
+				log.Logger().WithError(err).Error("Failed to parse JWT")
+				continue
+			}
+		}
+
 		// Parse the token, requesting verification using the keyset constructed above.
 		// If the JWT was not signed by this key then this will fail.
 		//
@@ -259,6 +268,15 @@ func credentialIsSecure(credential string) error {
 
 	// By default this method rejects messages
 	return fmt.Errorf("no signatures found")
+}
+
+// credentialAlgorithm returns the signing algorithm of a credential that passed credentialIsSecure
+func credentialAlgorithm(credential string) jwa.SignatureAlgorithm {
+	message, err := jws.Parse([]byte(credential), jws.WithCompact())
+	if err != nil || len(message.Signatures()) != 1 {
+		return ""
+	}
+	return message.Signatures()[0].ProtectedHeaders().Algorithm()
 }
 
 // mandatoryJWTFields returns the mandatory fields of the JWT, and is effectively a constant
